@@ -244,3 +244,60 @@ void h_dwp(void)
 	}
 	V_CANARY("dwp");
 }
+
+/* ---- belt-bde (STB 34.101.31, blockwise disk encryption) ----
+   spec: s <- E(S); for every block: s <- s * C, Y_i = E(X_i ^ s) ^ s, where * C is the
+   multiplication by x in GF(2^128) = GF(2)[x] / (x^128 + x^7 + x^2 + x + 1) on the block read
+   as a little-endian 128-bit number.  Written octet-wise here (no code shared with
+   beltBlockMulC); group modes.mulc decides beltBlockMulC == this formula for all 2^128 blocks. */
+static void spec_mulc(octet s[16])
+{
+	unsigned carry = 0, c, i;
+	for (i = 0; i < 16; ++i) c = s[i] >> 7, s[i] = (octet)((s[i] << 1) | carry), carry = c;
+	if (carry) s[0] ^= 0x87;
+}
+void h_mulc(void)
+{
+	V_IN_ARR(u32, b, 4);
+	octet s[16];
+	u32 w[4];
+	unsigned i;
+	for (i = 0; i < 16; ++i) s[i] = (octet)(b[i / 4] >> (8 * (i % 4)));
+	spec_mulc(s);
+	for (i = 0; i < 4; ++i) w[i] = (u32)s[4 * i] | (u32)s[4 * i + 1] << 8 | (u32)s[4 * i + 2] << 16 | (u32)s[4 * i + 3] << 24;
+	beltBlockMulC(b);
+	V_ASSERT(b[0] == w[0] && b[1] == w[1] && b[2] == w[2] && b[3] == w[3], "beltBlockMulC == multiplication by x modulo x^128 + x^7 + x^2 + x + 1 (little-endian block)");
+	V_CANARY("mulc");
+}
+#if (CNT >= 16 && CNT % 16 == 0)
+void h_bde(void)
+{
+	SETUP;
+	size_t i;
+	octet s[16], t[16];
+	V_ALLOC(octet, state, beltBDE_keep());
+	E(s, iv, K);
+	for (i = 0; i < CNT; i += 16)
+	{
+		spec_mulc(s);
+		o_xor(t, x0 + i, s, 16);
+		E(e + i, t, K);
+		o_xor(e + i, e + i, s, 16);
+	}
+	o_copy(buf, x0, CNT);
+	beltBDEStart(state, key, KLEN, iv);
+	beltBDEStepE(buf, CNT, state);
+	V_ASSERT(o_eq(buf, e, CNT), "beltBDEStepE == belt-bde: Y_i = E(X_i ^ s_i) ^ s_i, s_i = s_{i-1} * C, s_0 = E(S)");
+	beltBDEStart(state, key, KLEN, iv);
+	beltBDEStepD(buf, CNT, state);
+	V_ASSERT(o_eq(buf, x0, CNT), "beltBDEStepD inverts beltBDEStepE");
+#ifndef VERIF_CBMC	/* the high-level pair wipes a page-rounded blob (about 1000 loop iterations): native build only */
+	{
+		octet y2[CNT];
+		V_ASSERT(beltBDEEncr(y2, x0, CNT, key, KLEN, iv) == ERR_OK && o_eq(y2, e, CNT), "beltBDEEncr == belt-bde");
+		V_ASSERT(beltBDEDecr(y2, e, CNT, key, KLEN, iv) == ERR_OK && o_eq(y2, x0, CNT), "beltBDEDecr inverts belt-bde");
+	}
+#endif
+	V_CANARY("bde");
+}
+#endif
